@@ -391,7 +391,7 @@ def r3(ctx: Ctx, rep: Report, fams):
 
 
 # ----------------------------------------------------------------------- R4
-TOTAL_CALLS = {"struct.unpack_from", "unpack_from", "len", "int.from_bytes", "isinstance", "bool", "FAILURE_CODES.get", "sum", "bytes", "bytearray", "hex", "str", "range"}
+TOTAL_CALLS = {"data.find", "data.rfind", "data.startswith", "data.endswith", "struct.unpack_from", "unpack_from", "len", "int.from_bytes", "isinstance", "bool", "FAILURE_CODES.get", "sum", "bytes", "bytearray", "hex", "str", "range"}
 
 
 def r4(ctx: Ctx, rep: Report, fams):
